@@ -88,6 +88,9 @@ func (api *API) encodeBasedOnType(
 			return api.encodeStruct(ctx, elemValue, elemValue.Interface(), elemValue.Type(), ts, opts)
 		case reflect.Array:
 			return api.encodeArray(ctx, elemValue, ts, opts)
+		default:
+			// pointers to any other supported type are transparent, like they are in decodeBasedOnType
+			return api.encodeBasedOnType(ctx, elemValue, elemValue.Interface(), elemValue.Type(), ts, opts)
 		}
 
 	case reflect.Struct:
